@@ -6,7 +6,7 @@
    sync_binlog to the master's values both returned OK on it with no other
    attempt to change either setting on that host in between or afterwards. *)
 From Coq Require Import ZArith NArith Bool List.
-From Mysync Require Import Gtid.Interval Gtid.GtidSet Base.Prog Base.ProgFacts Base.Hoare Base.Config Procs.NodeOps Procs.ActiveNodes Procs.Switchover Procs.Optimization Proofs.OptimizationProofs.
+From Mysync Require Import Gtid.Interval Gtid.GtidSet Base.Prog Base.ProgFacts Base.Hoare Base.Config Procs.NodeOps Procs.ActiveNodes Procs.Switchover Procs.Optimization Proofs.OptimizationProofs Env.World Proofs.DurabilityWorld.
 Import ListNotations.
 Open Scope Z_scope.
 
@@ -115,3 +115,27 @@ Proof.
   - cbn. repeat (split; [reflexivity|]). split; reflexivity.
   - eexists. split; [right; left; reflexivity|]. split; reflexivity.
 Qed.
+
+(* what relaxing and restoring DO to a server, executed against the fault-free server of the world model (Env/World.v,
+   tied to the fake server by the K4 correspondence): relaxing sets innodb_flush_log_at_trx_commit = 2 and
+   sync_binlog = 1000; restoring sets both to the given (master's) values; and a server relaxed by mysync and then
+   restored differs from the server it was in nothing but carrying exactly those two values *)
+Theorem C19_relaxing_sets_both_settings : forall h w, w_host w = h ->
+  wout (wrun (optimize_replication h) w) = Done None /\
+  s_flush (w_srv (wworld (wrun (optimize_replication h) w))) = 2 /\
+  s_sync (w_srv (wworld (wrun (optimize_replication h) w))) = 1000.
+Proof. exact relax_sets_both. Qed.
+Print Assumptions C19_relaxing_sets_both_settings.
+
+Theorem C19_restoring_sets_both_settings : forall s1 s2 h rs w, w_host w = h ->
+  wout (wrun (set_repl_settings s1 s2 h rs) w) = Done None /\
+  s_flush (w_srv (wworld (wrun (set_repl_settings s1 s2 h rs) w))) = fst rs /\
+  s_sync (w_srv (wworld (wrun (set_repl_settings s1 s2 h rs) w))) = snd rs.
+Proof. exact restore_sets_both. Qed.
+Print Assumptions C19_restoring_sets_both_settings.
+
+Theorem C19_relax_then_restore_leaves_the_masters_settings : forall s1 s2 h rs w, w_host w = h ->
+  w_srv (wworld (wrun (set_repl_settings s1 s2 h rs) (wworld (wrun (optimize_replication h) w)))) =
+  with_durability (w_srv w) (fst rs) (snd rs).
+Proof. exact relax_then_restore. Qed.
+Print Assumptions C19_relax_then_restore_leaves_the_masters_settings.
